@@ -227,6 +227,13 @@ impl LeafUpdater {
             },
         };
 
+        if found {
+            let (val, overflow) = base.cell(to);
+            if overflow {
+                with_deleted_overflow(val);
+            }
+        }
+
         if from == to {
             // nothing to keep
             return;
@@ -235,13 +242,6 @@ impl LeafUpdater {
         let values_size = base.node.values_size(from, to);
         self.ops.push(LeafOp::KeepChunk(from, to, values_size));
         self.gauge.ingest(to - from, values_size);
-
-        if found {
-            let (val, overflow) = base.cell(to);
-            if overflow {
-                with_deleted_overflow(val);
-            }
-        }
     }
 
     // Attempt to build as many leaves as possible with the specified body size target
